@@ -18,6 +18,7 @@
 EXTENDS Integers, Sequences, FiniteSets, TLC, Json
 
 Big == 1000000
+Overflow == Big + 1      \* stands for a declared size >= 2^63
 
 \* inner archives (lists of [dirs, declared, actual]) used by nested entries
 Inner == [ tiny  |-> << [dirs |-> 0, declared |-> 1, actual |-> 1] >>,
@@ -29,7 +30,9 @@ Inner == [ tiny  |-> << [dirs |-> 0, declared |-> 1, actual |-> 1] >>,
 Templates == { [kind |-> "file", dirs |-> d, declared |-> s, actual |-> s, inner |-> "none", again |-> FALSE] : d \in 0..2, s \in {0, 1, 3} }
        \cup  { [kind |-> "file", dirs |-> 0, declared |-> 2, actual |-> 1, inner |-> "none", again |-> FALSE],      \* header declares more than there is
                [kind |-> "file", dirs |-> 1, declared |-> 1, actual |-> 3, inner |-> "none", again |-> FALSE],      \* header declares less than there is
-               [kind |-> "fakezip", dirs |-> 0, declared |-> 1, actual |-> 1, inner |-> "none", again |-> FALSE] }
+               [kind |-> "fakezip", dirs |-> 0, declared |-> 1, actual |-> 1, inner |-> "none", again |-> FALSE],
+               \* a zip64 header declaring 2^63 bytes or more (beyond every limit, negative once read as a signed size) over a small stream
+               [kind |-> "file", dirs |-> 0, declared |-> Overflow, actual |-> 3, inner |-> "none", again |-> FALSE] }
        \cup  { [kind |-> "nested", dirs |-> d, declared |-> 0, actual |-> 0, inner |-> i, again |-> a] : d \in 0..1, i \in DOMAIN Inner, a \in BOOLEAN }
 
 CONSTANT Thorough   \* FALSE: a covering subset of archives and limit configurations (quick tier)
@@ -37,7 +40,7 @@ CONSTANT Thorough   \* FALSE: a covering subset of archives and limit configurat
 LimitValues == {0, 1, 2, 3, Big}
 VARIABLES archive, maxFile, maxTotal, maxCount, maxDepth, recursive
 vars == <<archive, maxFile, maxTotal, maxCount, maxDepth, recursive>>
-Core == {t \in Templates : (t.kind = "file" /\ t.dirs = 1) \/ t.kind = "fakezip" \/ (t.kind = "nested" /\ t.dirs = 0 /\ ~t.again /\ t.inner \in {"two", "bomb"})
+Core == {t \in Templates : (t.kind = "file" /\ t.dirs = 1) \/ t.kind = "fakezip" \/ t.declared = Overflow \/ (t.kind = "nested" /\ t.dirs = 0 /\ ~t.again /\ t.inner \in {"two", "bomb"})
                             \/ (t.kind = "nested" /\ t.dirs = 1 /\ t.again /\ t.inner = "deep")}
 Archives == {<<t>> : t \in Templates} \cup {<<t, u>> : t \in (IF Thorough THEN Templates ELSE Core), u \in (IF Thorough THEN Templates ELSE Core)}
 \* each limit independently tiny / exact / off by one / huge; at most two (quick: one) limits away from "huge" at a time
